@@ -62,6 +62,10 @@ type MTarget struct {
 	PU8   *uint8            `plenc:"39"`
 	PF32  *float32          `plenc:"40"`
 	PByt  *[]byte           `plenc:"41"`
+	MSt   map[string]MInner  `plenc:"42"`
+	MPS   map[string]*MInner `plenc:"43"`
+	JO    map[string]any     `plenc:"44"`
+	JA    []any              `plenc:"45"`
 }
 
 func init() {
@@ -122,8 +126,64 @@ func isProtoField(sf reflect.StructField, cfg InstCfg) bool {
 // are overwritten (nested structs and non-nil pointers recursively), absent
 // fields keep their prior value, a slice holds exactly the encoded elements
 // (appended for the protobuf repeated form), map entries are merged by key.
-func Merge(dst, src reflect.Value, cfg InstCfg) {
+//
+// A value under a key the map already holds is a nested value like any other:
+// when the data carries it, it is decoded into the stored value (a struct's
+// absent fields keep their prior value, a non-nil pointer is followed); when
+// the data omits it (a zero value), the entry becomes zero. JSON-any values
+// (map[string]any, []any) have no fields: an entry of a map[string]any
+// replaces the value under its key, a []any holds exactly the encoded
+// elements. Their decoded form is taken from fresh, the decode of the same
+// bytes into a new variable (numbers do not round-trip to the same Go type).
+func Merge(dst, src, fresh reflect.Value, cfg InstCfg) {
 	mergeValue(dst, src, cfg, false, 0)
+	overlayJSON(dst, src, fresh, 0)
+}
+
+func isJSONAny(t reflect.Type) bool {
+	return (t.Kind() == reflect.Map || t.Kind() == reflect.Slice) && t.Elem().Kind() == reflect.Interface
+}
+
+func overlayJSON(dst, src, fresh reflect.Value, depth int) {
+	t := src.Type()
+	if depth > 50 || t == tTime || isNullType(t) {
+		return
+	}
+	switch t.Kind() {
+	case reflect.Struct:
+		for i := 0; i < t.NumField(); i++ {
+			sf := t.Field(i)
+			if sf.PkgPath != "" {
+				continue
+			}
+			if tag := sf.Tag.Get("plenc"); tag == "" || tag == "-" {
+				continue
+			}
+			if !Present(src.Field(i)) {
+				continue
+			}
+			overlayJSON(dst.Field(i), src.Field(i), fresh.Field(i), depth+1)
+		}
+	case reflect.Ptr:
+		if t.Elem().Kind() == reflect.Struct && !dst.IsNil() && !fresh.IsNil() {
+			overlayJSON(dst.Elem(), src.Elem(), fresh.Elem(), depth+1)
+		}
+	case reflect.Map:
+		if !isJSONAny(t) {
+			return
+		}
+		if dst.IsNil() {
+			dst.Set(reflect.MakeMap(t))
+		}
+		it := fresh.MapRange()
+		for it.Next() {
+			dst.SetMapIndex(Clone(it.Key()), Clone(it.Value()))
+		}
+	case reflect.Slice:
+		if isJSONAny(t) {
+			dst.Set(Clone(fresh))
+		}
+	}
 }
 
 func mergeValue(dst, src reflect.Value, cfg InstCfg, proto bool, depth int) {
@@ -157,6 +217,9 @@ func mergeValue(dst, src reflect.Value, cfg InstCfg, proto bool, depth int) {
 			dst.Set(Clone(src))
 			return
 		}
+		if isJSONAny(t) {
+			return // overlayJSON
+		}
 		n := src.Len()
 		fresh := reflect.MakeSlice(t, n, n)
 		for i := 0; i < n; i++ {
@@ -171,11 +234,20 @@ func mergeValue(dst, src reflect.Value, cfg InstCfg, proto bool, depth int) {
 		if dst.IsNil() {
 			dst.Set(reflect.MakeMap(t))
 		}
+		if isJSONAny(t) {
+			return // overlayJSON
+		}
 		it := src.MapRange()
 		for it.Next() {
 			k := Clone(it.Key())
 			e := reflect.New(t.Elem()).Elem()
-			freshElem(e, it.Value(), cfg, depth+1)
+			if old := dst.MapIndex(it.Key()); old.IsValid() && Present(it.Value()) {
+				// the value is decoded into the one already stored under the key
+				e.Set(Clone(old))
+				mergeValue(e, it.Value(), cfg, false, depth+1)
+			} else {
+				freshElem(e, it.Value(), cfg, depth+1)
+			}
 			dst.SetMapIndex(k, e)
 		}
 	default:
